@@ -195,3 +195,77 @@ func VerifC11_EnumNumbering() {
 	verifAssert(!clash, "an implicitly numbered value never collides with an earlier value")
 	verifReach("end")
 }
+
+func init() {
+	verifHarnesses["VerifC19_ReferencedIncludes"] = VerifC19_ReferencedIncludes
+}
+
+// C19 (kernel): the functions that compute which includes a generated file imports
+// (Scope / Service / Frugal .ReferencedIncludes, ReferencedScopeIncludes,
+// ReferencedServiceIncludes, OrderedIncludes, ReferencedInternals) are executed
+// twice on one model with EVERY range over EVERY map exploring all iteration orders
+// (-all-map-orders): both executions must return the same sequence. Today none of them
+// ranges over a map; a change that makes one of them do so is decided here.
+func VerifC19_ReferencedIncludes() {
+	names := []string{"alpha", "beta", "gamma"}
+	f := &Frugal{Name: "p", ParsedIncludes: map[string]*Frugal{}, typedefIndex: map[string]*TypeDef{}, namespaceIndex: map[string]*Namespace{}}
+	for _, n := range names {
+		inc := &Frugal{Name: n, ParsedIncludes: map[string]*Frugal{}, typedefIndex: map[string]*TypeDef{}, namespaceIndex: map[string]*Namespace{}}
+		inc.Structs = []*Struct{{Name: "T"}}
+		f.ParsedIncludes[n] = inc
+		f.Includes = append(f.Includes, &Include{Name: n, Value: n + ".frugal"})
+	}
+	ty := func() *Type {
+		n := names[verifChoice(3)] + ".T"
+		if verifNondetBool() {
+			return &Type{Name: "map", KeyType: &Type{Name: n}, ValueType: &Type{Name: "string"}}
+		}
+		return &Type{Name: n}
+	}
+	f.Scopes = []*Scope{{Name: "Ev", Prefix: &ScopePrefix{String: ""}, Operations: []*Operation{{Name: "A", Type: ty()}, {Name: "B", Type: ty()}, {Name: "C", Type: &Type{Name: "gamma.T"}}}}}
+	f.Services = []*Service{{Name: "Svc", Methods: []*Method{
+		{Name: "m", ReturnType: ty(), Arguments: []*Field{{ID: 1, Name: "a", Type: ty()}}},
+		{Name: "n", ReturnType: &Type{Name: "alpha.T"}},
+	}}}
+	f.Scopes[0].Frugal = f
+	f.Services[0].Frugal = f
+	f.assignFrugal()
+	same := func(a, b []*Include) bool {
+		if len(a) != len(b) {
+			return false
+		}
+		for i := range a {
+			if a[i].Name != b[i].Name {
+				return false
+			}
+		}
+		return true
+	}
+	switch verifParam() {
+	case 0:
+		a, e1 := f.Scopes[0].ReferencedIncludes()
+		b, e2 := f.Scopes[0].ReferencedIncludes()
+		verifAssert(e1 == nil && e2 == nil && same(a, b), "Scope.ReferencedIncludes: two runs, same sequence")
+	case 1:
+		a, e1 := f.Services[0].ReferencedIncludes()
+		b, e2 := f.Services[0].ReferencedIncludes()
+		verifAssert(e1 == nil && e2 == nil && same(a, b), "Service.ReferencedIncludes: two runs, same sequence")
+	case 2:
+		a, e1 := f.ReferencedScopeIncludes()
+		b, e2 := f.ReferencedScopeIncludes()
+		verifAssert(e1 == nil && e2 == nil && same(a, b), "Frugal.ReferencedScopeIncludes: two runs, same sequence")
+		c, e3 := f.ReferencedServiceIncludes()
+		d, e4 := f.ReferencedServiceIncludes()
+		verifAssert(e3 == nil && e4 == nil && same(c, d), "Frugal.ReferencedServiceIncludes: two runs, same sequence")
+	case 3:
+		a, e1 := f.ReferencedIncludes()
+		b, e2 := f.ReferencedIncludes()
+		verifAssert(e1 == nil && e2 == nil && same(a, b), "Frugal.ReferencedIncludes: two runs, same sequence")
+		x, y := f.OrderedIncludes(), f.OrderedIncludes()
+		verifAssert(len(x) == len(y), "OrderedIncludes: same length")
+		for i := range x {
+			verifAssert(x[i].Name == y[i].Name, "OrderedIncludes: two runs, same sequence")
+		}
+	}
+	verifReach("end")
+}
